@@ -6,6 +6,8 @@ Property theorems only (lemmas in Proofs/Audit.lean, Proofs/Lazy.lean).  The tab
 import Model.Audit
 import Proofs.Audit
 import Generated.Operators
+import Model.Expr
+import Proofs.Lazy
 
 open Audit
 
@@ -105,6 +107,33 @@ expression class found in the live package, a fault planted in *each* of its chi
 reached by `audit`, `check_draws`, `check_rv` and `check_panel_trajectory` — except the three
 operators that legitimately stop their own collector. -/
 theorem table_descends : tableConforms Generated.Operators.table = true := by decide
+
+/-! ### the missing-data code (model: `Expr.semMissing`, the engine's `bioExprVariable` test) -/
+
+/-- **A value equal to the missing-data code is never used in a calculation.**  If the evaluation of
+an observation produces a number while every variable holding the code raises an error when read,
+then that number is produced whatever those variables hold: it does not depend on them. -/
+theorem missing_never_used {α} [NumOps α] (code : α) (d : Expr.Dag α) (env env' : Expr.Env α)
+    (hb : env'.beta = env.beta)
+    (hv : ∀ name, Num.eq (env.var name) code = false → env'.var name = env.var name)
+    (k : Nat) (v : α) (h : Expr.eval (Expr.semMissing code) d env k = .ok v) :
+    Expr.eval Expr.semEngine d env' k = .ok v :=
+  Expr.evalN_missing code d env env' hb hv (k + 1) k v h
+
+/-- **The code in columns the row does not hold is harmless**: when no variable of the observation
+equals the code, the test changes nothing (values and errors alike). -/
+theorem missing_absent_harmless {α} [NumOps α] (code : α) (d : Expr.Dag α) (env : Expr.Env α)
+    (hno : ∀ name, Num.eq (env.var name) code = false) (k : Nat) :
+    Expr.eval (Expr.semMissing code) d env k = Expr.eval Expr.semEngine d env k :=
+  Expr.evalN_missing_absent code d env hno (k + 1) k
+
+/-- **Reading such a value fails**: the variable itself raises, and arithmetic is strict. -/
+theorem missing_read_fails {α} [NumOps α] (code : α) (n : Expr.Node α) (env : Expr.Env α)
+    (rs : List (Expr.Res α)) (hk : n.kind = .var) (hc : Num.eq (env.var n.name) code = true) :
+    Expr.semMissing code n env rs = .error .missing ∧
+    ∀ (rs' : List (Expr.Res α)) (f : α → α → α), Expr.nth rs' 0 = .error .missing →
+      Expr.bin rs' f = .error .missing :=
+  ⟨Expr.var_missing_errors code n env rs hk hc, fun rs' f h => Expr.bin_strict rs' f .missing (Or.inl h)⟩
 
 /-! ### non-vacuity -/
 
